@@ -68,7 +68,7 @@ pub struct Judge<'a> {
 /// The degree table TLC emits from Laws1.tla (`op = laws1`).
 pub struct Laws1 {
     pub deg: BTreeMap<String, i32>,
-    pub safe: BTreeMap<String, bool>,
+    pub safe: BTreeMap<String, String>,
 }
 impl Laws1 {
     pub fn load(path: &str) -> Laws1 {
@@ -78,7 +78,7 @@ impl Laws1 {
                 let safe = v["safe"].as_object().unwrap_or_else(|| tool_error("laws1 without safe"));
                 return Laws1 {
                     deg: deg.iter().map(|(k, d)| (k.clone(), d.as_i64().unwrap() as i32)).collect(),
-                    safe: safe.iter().map(|(k, d)| (k.clone(), d.as_bool().unwrap())).collect(),
+                    safe: safe.iter().map(|(k, d)| (k.clone(), d.as_str().unwrap_or("all").to_string())).collect(),
                 };
             }
         }
@@ -87,8 +87,10 @@ impl Laws1 {
     /// the unit change for kernel k of a series whose largest magnitude is `maxabs`, or None if
     /// the kernel is not replayed in other units
     pub fn unit(&self, k: &str, u: f64, maxabs: i64) -> Option<Unit> {
-        if !*self.safe.get(k)? {
-            return None;
+        match self.safe.get(k)?.as_str() {
+            "all" => {},
+            "small" if u.abs() < 1.0 => {},
+            _ => return None,
         }
         let d = *self.deg.get(k)?;
         let factor = u.powi(d);
@@ -283,10 +285,31 @@ pub fn replay_beh(b: &Beh, kernels: &[String], j: &mut Judge, full: bool, laws: 
             spy_faults(fname, &key, "Vec<f64>->SpyOut<f64>/ret", j, case);
             j.compare(fname, &key, "Vec<f64>->SpyOut<f64>/ret", &got, exps, case);
 
+            // a deque whose storage wraps (iterator body + positional reads), and the option view
+            let dq: VecDeque<f64> = crate::roll1::rotated(&v, v.len() / 2 + 1);
+            let got = run_valid::<f64, _, f64, VecDeque<f64>>(k, &dq, w, mp, false);
+            j.compare(fname, &key, "VecDeque<f64>(wrapped)->VecDeque<f64>/ret", &got, exps, case);
+            let got = run_valid::<f64, _, f64, Vec<f64>>(k, &dq, w, mp, true);
+            j.compare(fname, &key, "VecDeque<f64>(wrapped)->Vec<f64>/to", &got, exps, case);
+            {
+                let ov = v.opt();
+                let got = run_valid::<Option<f64>, _, f64, Vec<f64>>(k, &ov, w, mp, false);
+                j.compare(fname, &key, "OptIter<Vec<f64>>->Vec<f64>/ret", &got, exps, case);
+            }
+            // caller-supplied output buffers in layouts the library does not allocate itself
+            let got = run_valid::<f64, _, f64, Vec<f64>>(k, &v, w, mp, Path::Odd(0));
+            j.compare(fname, &key, "Vec<f64>->Vec<f64>/to(sub-slice)", &got, exps, case);
+            let got = run_valid::<f64, _, f64, VecDeque<f64>>(k, &v, w, mp, Path::Odd(0));
+            j.compare(fname, &key, "Vec<f64>->VecDeque<f64>/to(wrapped ring)", &got, exps, case);
+            let got = run_valid::<f64, _, f64, Array1<f64>>(k, &v, w, mp, Path::Odd(0));
+            j.compare(fname, &key, "Vec<f64>->Array1<f64>/to(step 2 view)", &got, exps, case);
+            let got = run_valid::<f64, _, f64, Array1<f64>>(k, &dq, w, mp, Path::Odd(1));
+            j.compare(fname, &key, "VecDeque<f64>(wrapped)->Array1<f64>/to(reversed view)", &got, exps, case);
             if full {
-                let dq: VecDeque<f64> = crate::roll1::rotated(&v, v.len() / 2 + 1);
-                let got = run_valid::<f64, _, f64, VecDeque<f64>>(k, &dq, w, mp, false);
-                j.compare(fname, &key, "VecDeque<f64>(wrapped)->VecDeque<f64>/ret", &got, exps, case);
+                let got = run_valid::<f64, _, f64, VecDeque<f64>>(k, &dq, w, mp, Path::Odd(1));
+                j.compare(fname, &key, "VecDeque<f64>(wrapped)->VecDeque<f64>/to(rotated ring)", &got, exps, case);
+                let got = run_valid::<f64, _, Option<f64>, Array1<Option<f64>>>(k, &v, w, mp, Path::Odd(2));
+                j.compare(fname, &key, "Vec<f64>->Array1<Option<f64>>/to(step 3 view)", &got, exps, case);
                 let a = Array1::from_vec(v.clone());
                 let got = run_valid::<f64, _, f64, Array1<f64>>(k, &a, w, mp, true);
                 j.compare(fname, &key, "Array1<f64>->Array1<f64>/to", &got, exps, case);
@@ -362,6 +385,15 @@ pub fn replay_beh(b: &Beh, kernels: &[String], j: &mut Judge, full: bool, laws: 
             let v: Vec<f64> = enc_vec(xs);
             let got = run_plain::<f64, _, f64, Vec<f64>>(k, &v, w, mp, true);
             j.compare(fname, &key, "Vec<f64>->Vec<f64>/to", &got, exps, case);
+            let dq: VecDeque<f64> = crate::roll1::rotated(&v, v.len() / 2 + 1);
+            let got = run_plain::<f64, _, f64, Vec<f64>>(k, &dq, w, mp, false);
+            j.compare(fname, &key, "VecDeque<f64>(wrapped)->Vec<f64>/ret", &got, exps, case);
+            let got = run_plain::<f64, _, f64, VecDeque<f64>>(k, &dq, w, mp, true);
+            j.compare(fname, &key, "VecDeque<f64>(wrapped)->VecDeque<f64>/to", &got, exps, case);
+            let got = run_plain::<f64, _, f64, VecDeque<f64>>(k, &v, w, mp, Path::Odd(0));
+            j.compare(fname, &key, "Vec<f64>->VecDeque<f64>/to(wrapped ring)", &got, exps, case);
+            let got = run_plain::<f64, _, f64, Array1<f64>>(k, &dq, w, mp, Path::Odd(0));
+            j.compare(fname, &key, "VecDeque<f64>(wrapped)->Array1<f64>/to(step 2 view)", &got, exps, case);
             let sp = Spy::new(1, v.clone());
             clear_log();
             let got = run_plain::<f64, _, f64, SpyOut<f64>>(k, &sp, w, mp, true);
